@@ -375,12 +375,19 @@ Definition builtin (name : string) (args : list val) (kws : list (string * val))
   match name with
   | "slice" => Some (pure_ (match args with [lo; hi] => Ok (mk_slice lo hi) | _ => Stuck "slice arity" end) w)
   | "np.maximum" => Some (match args with [a; b] => pure2 xmax a b w | _ => Exc "TypeError" end)
-  | "np.log10" => Some (num1m (m_log true) args w)
-  | "np.log" => Some (num1m (m_log false) args w)
-  | "np.exp" => Some (num1 xexp args w)
+  | "np.log10" => Some (match args with [a] => do r <- map1 3 (m_log true) (ul a) w; Ok ((if is_seq a then arr (fst r) else fst r), snd r) | _ => Exc "TypeError" end)
+  | "np.log" => Some (match args with [a] => do r <- map1 3 (m_log false) (ul a) w; Ok ((if is_seq a then arr (fst r) else fst r), snd r) | _ => Exc "TypeError" end)
+  | "np.exp" => Some (match args with [a] => do r <- map1 3 (fun x w => Ok (xexp x, w)) (ul a) w; Ok ((if is_seq a then arr (fst r) else fst r), snd r) | _ => Exc "TypeError" end)
+  | "np.diag" => Some (pure_ (match args with
+                     | [a] => match seq_payload a with
+                              | Some l => if is_nested l then Stuck "np.diag of a matrix"
+                                          else Ok (VArr (map (fun i => VList (map (fun j => if Nat.eqb i j then nth i l VNone else VNum (Fin 0)) (seq 0 (length l)))) (seq 0 (length l))))
+                              | None => Stuck "np.diag" end
+                     | _ => Stuck "np.diag" end) w)
   | "np.sqrt" | "math.sqrt" => Some (match args with [a] => do r <- map1 3 m_sqrt (ul a) w; Ok ((if is_seq a then arr (fst r) else fst r), snd r) | _ => Exc "TypeError" end)
   | "np.outer" => Some (match args with [u; v] => do r <- np_outer (ul u) (ul v) w; Ok (arr (fst r), snd r) | _ => Exc "TypeError" end)
-  | "np.sum" | "sum" => Some (match args with [a] => do l <- as_list a; vsum_l l w | _ => Exc "TypeError" end)
+  | "np.sum" => Some (match args with [a] => do l <- as_list a; vsum_l (flatten2 l) w | _ => Exc "TypeError" end)
+  | "sum" => Some (match args with [a] => do l <- as_list a; vsum_l l w | _ => Exc "TypeError" end)
   | "np.zeros_like" => Some (pure_ (match args with [a] => do l <- as_list a; Ok (VArr (map (fun _ => VNum (Fin 0)) l)) | _ => Exc "TypeError" end) w)
   | "np.ones_like" => Some (pure_ (match args with [a] => do l <- as_list a; Ok (VArr (map (fun _ => VNum (Fin 1)) l)) | _ => Exc "TypeError" end) w)
   | "np.where" => Some (pure_ (match args with [m] => np_where m | _ => Stuck "np.where: arity" end) w)
@@ -689,6 +696,19 @@ Fixpoint eval (fuel : nat) (e : expr) (ρ : env) (w : world) {struct fuel} : res
                                   | _ => Stuck ("unknown method " ++ cls ++ "." ++ m) end end
               | VList _ | VArr _ =>
                   if String.eqb m "dot" then match argv with [b] => do r <- np_dot (ul (fst rw)) (ul b) (snd rw); Ok (arr (fst r), snd r) | _ => Exc "TypeError" end
+                  else if String.eqb m "diagonal" then
+                    match seq_payload (fst rw), argv with
+                    | Some rows, [] =>
+                        (fix go (rows : list val) (i : nat) : res (val * world) :=
+                           match rows with
+                           | [] => Ok (VArr [], snd rw)
+                           | r :: t => match seq_payload r with
+                                       | Some l => match nth_error l i with
+                                                   | Some v => do rest <- go t (S i); match fst rest with VArr vs => Ok (VArr (v :: vs), snd rw) | _ => Stuck "diagonal" end
+                                                   | None => Stuck "diagonal: not square" end
+                                       | None => Stuck "diagonal: not a matrix" end
+                           end) rows 0%nat
+                    | _, _ => Stuck "diagonal" end
                   else Stuck ("list method " ++ m)
               | VDict d =>
                   match m, argv with
